@@ -40,6 +40,12 @@ let () = iter_lines (fun line ->
                               fl := fl'; tf := tf'; srcs.(k) <- sf'; Buffer.add_string b (Printf.sprintf " c%d=1" k)
                           | None -> Buffer.add_string b (Printf.sprintf " c%d=FUEL" k))
                      | None -> Buffer.add_string b (Printf.sprintf " c%d=nosrc" k))
+                | 'M' ->
+                    (* pairing two sources: the model of the copy does not look at a source's flags, nothing changes *)
+                    let j = Char.code o.[1] - 48 and k2 = Char.code o.[2] - 48 in
+                    if j < nsrc && k2 < nsrc && shs.(j) <> None && shs.(k2) <> None
+                    then Buffer.add_string b (Printf.sprintf " M%d%d=1" j k2)
+                    else Buffer.add_string b (Printf.sprintf " M%d%d=nosrc" j k2)
                 | 'm' ->
                     (match (if k < nsrc then shs.(k) else None) with
                      | Some sh ->
